@@ -2,7 +2,7 @@
      core/validatorapi/validatorapi.go  (every Submit*/Proposal/*Selections handler + verifyPartialSig)
      core/parsigex/parsigex.go          (handle + NewEth2Verifier), gated by core/gater.go.
 
-   Both entrances share ONE decision rule, [admit]: a partial signature for validator v, share
+   Both entrances share ONE decision rule, [lets_in]: a partial signature for validator v, share
    index i, over an object with signing root rho is let in iff v is in the cluster lock, i is one
    of v's share indices and the signature is the signature of (v, i)'s key share over rho.
    Cryptography is symbolic: a signature is a term -- [GSig v j rho] made with the key share j of
@@ -73,7 +73,7 @@ Fixpoint lookup {A} (v : N) (l : list (N * A)) : option A :=
 Definition memz (i : Z) (l : list Z) : bool := existsb (Z.eqb i) l.
 
 (* THE decision rule *)
-Definition admit (lock : lockt) (v : N) (i : Z) (rho : N) (s : gsig) : bool :=
+Definition lets_in (lock : lockt) (v : N) (i : Z) (rho : N) (s : gsig) : bool :=
   match lookup v lock with
   | Some sh => memz i sh && gsig_eqb s (GSig v i rho)
   | None => false
@@ -185,7 +185,7 @@ Fixpoint run (s : state) (ls : list label) : option state :=
 (* an item is valid per the rule *)
 Definition item_ok (lock : lockt) (e : entrance) (it : item) : bool :=
   match i_who it with
-  | Some v => i_prop it && i_inner it && negb (i_raw it) && admit lock v (item_idx e it) (i_root it) (i_sig it)
+  | Some v => i_prop it && i_inner it && negb (i_raw it) && lets_in lock v (item_idx e it) (i_root it) (i_sig it)
   | None => false
   end.
 
